@@ -794,8 +794,10 @@ func c09G3(c *rt.Ctx) {
 		keyC  = "aggregate share map keyed by ShareIdx"
 		valC  = "aggregate share map value"
 		lenC  = "aggregate len(distinct shares) < threshold → no aggregation"
+		allC  = "aggregate share map holds every partial of the entry"
 	)
 	acc := newC09Acc()
+	fill := newC09FillRec()
 	covered := map[ssa.Instruction]bool{}
 	updates, taPaths, prePaths := 0, 0, 0
 	isThr := func(st *an.H09State, sv an.H09SV) bool {
@@ -874,6 +876,8 @@ func c09G3(c *rt.Ctx) {
 			return
 		}
 		lastUp := -1
+		added := map[an.H09SV]bool{}  // index instances (within the partials of the entry) of the elements inserted
+		idxVals := map[ssa.Value]bool{} // their SSA values: the induction value(s) of the filling loop
 		for i := range st.Trace {
 			e := &st.Trace[i]
 			switch e.Kind {
@@ -898,6 +902,14 @@ func c09G3(c *rt.Ctx) {
 				keyOpaque := !isShare && c09Opaque(st, kp.Base)
 				// value: tblsconv.SigFromCore(elem.Signature()), conversion checked
 				valElem, valWhy, valUnsure := c09ShareValue(st, e.Val)
+				switch {
+				case valElem != nil && valWhy == "" && isElem(valElem.Base, valElem.Steps):
+					// (the signature of that element, converted and checked, is what enters the interpolation)
+					added[valElem.Steps[1].Idx] = true
+					idxVals[valElem.Steps[1].Idx.V] = true
+				case valElem == nil && fromPar:
+					idxVals[elem[1].Idx.V] = true
+				}
 				switch {
 				case fromPar:
 					acc.good(fillC, e.In, "")
@@ -955,6 +967,7 @@ func c09G3(c *rt.Ctx) {
 				acc.unsure(mapC, e.In, "share map is passed to "+c09EvName(e))
 			}
 		}
+		fill.record(st, ev, added, idxVals, isThr, isEntry)
 		good, pre := false, false
 		for i := range st.Trace {
 			e := &st.Trace[i]
@@ -1050,6 +1063,7 @@ func c09G3(c *rt.Ctx) {
 	if updates == 0 && res.Complete {
 		c.Bail("no insertion into the share map")
 	}
+	fill.flush(acc, allC)
 	acc.flush(c)
 	// the cheap pre-check on the raw list is implied by the test above (len(map) <= len(list)); recorded when present
 	if taPaths > 0 && prePaths == taPaths {
@@ -1554,6 +1568,7 @@ func c09G4(c *rt.Ctx) {
 		if fn == nil || fn.Blocks == nil {
 			c.Bail("GetDomain has no body")
 		}
+		c09DomFn = fn // G5 decides the container the domain type is read from
 		nameP := c09ParamOfType(c, fn, c09SigningPkg+".DomainName")
 		epP := c09ParamOfType(c, fn, tEpoch)
 		name := an.H09Param(nameP)
@@ -1561,7 +1576,7 @@ func c09G4(c *rt.Ctx) {
 		specKey := func(st *an.H09State, sv an.H09SV) bool {
 			// spec[string(name)], possibly through the comma-ok form and a type assertion
 			p := st.PathOf(sv)
-			// (the key is string-typed, so the container indexed is a map: the spec returned by the beacon node)
+			// (which container is indexed — the beacon node's spec or a constant table — is decided by G5 "domain type source")
 			n := len(p.Steps)
 			return n >= 1 && p.Steps[n-1].Kind == "index" && p.Steps[n-1].Idx == name
 		}
